@@ -237,3 +237,42 @@ def c10_run(j: int, p1: bool, p2: bool, t0: int, t1: int, t2: int) -> bool:
     if CUSTOM and not seen:
         return False
     return ok()
+
+
+def c10_limits(mw: int, smw: int, me: int, sk: int) -> bool:
+    """
+    run hands its limits to the engine unchanged: the stale check runs on a pool of stale_check_max_workers (default:
+    max_workers) with the 'cheap' scheduler and no error tolerance, the run phase on max_workers with the caller's max_errors
+    and scheduler; values below 1 (workers) / 0 (errors) and unknown schedulers are rejected before anything happens.
+    Codes: mw, smw: 0 = None, k >= 1 = k, -1 = invalid 0;  me: -2 = invalid -1, -1 = None, k >= 0 = k;  sk: 0 None, 1 default, 2 random, 3 invalid.
+
+    pre: -1 <= mw <= 4 and -1 <= smw <= 4 and -2 <= me <= 3 and 0 <= sk <= 3
+    post: _
+    """
+    begin()
+    w = W.World(W.NOW)
+    plan, reg = uberjob.Plan(), uberjob.Registry()
+    n1 = plan.call(W.mk_fn(1, w))
+    reg.add(n1, W.LStore(1, False, 0, None, w))
+    kw = {}
+    mwv = None if mw == 0 else (0 if mw == -1 else mw)
+    smwv = None if smw == 0 else (0 if smw == -1 else smw)
+    mev = None if me == -1 else (-1 if me == -2 else me)
+    skv = [None, "default", "random", "bogus"][sk]
+    kw = {"max_workers": mwv, "stale_check_max_workers": smwv, "max_errors": mev, "scheduler": skv}
+    del W.ENGINE_CALLS[:]
+    invalid = mw == -1 or smw == -1 or me == -2 or sk == 3
+    try:
+        uberjob.run(plan, registry=reg, output=n1, progress=None, **kw)
+    except ValueError:
+        return invalid and not W.ENGINE_CALLS and not w.log and ok()
+    if invalid:
+        return False
+    if len(W.ENGINE_CALLS) != 2:
+        return False
+    stale, runp = W.ENGINE_CALLS
+    if stale["worker_count"] != (smwv if smwv is not None else mwv) or stale["scheduler"] != "cheap" or stale["max_errors"] != 0:
+        return False
+    if runp["worker_count"] != mwv or runp["max_errors"] != mev or runp["scheduler"] != skv:
+        return False
+    return ok()
